@@ -390,7 +390,7 @@ def run_case(rng, tier, res):
                 res.unjudged += 1
             i = st["strobed"]
             if i is None or i != st["next_i"]:
-                res.violation("harness_unexpected_strobe", "cyc=%d" % cyc)
+                res.violation("strobe_seen_with_busy_low_inside_operation", "cyc=%d" % cyc)
             else:
                 o = ops[i]
                 new = dict(o)
@@ -484,33 +484,40 @@ def run_case(rng, tier, res):
             b.set(s, 0)
         yield
         for i, o in enumerate(ops):
-            waited = 0
-            while b.get(dut.busy) or st["op"] is not None:
-                waited += 1
-                if waited > OP_BOUND + 2 * 11 * 150 + 100:
-                    if st["op"] is None:
-                        res.violation("busy_stuck_high_while_idle", "before op#%d cyc=%d" % (i, b.cycle))
+            attempts = 0
+            while True:
+                waited = 0
+                while b.get(dut.busy) or st["op"] is not None:
+                    waited += 1
+                    if waited > OP_BOUND + 2 * 11 * 150 + 100:
+                        if st["op"] is None:
+                            res.violation("busy_stuck_high_while_idle", "before op#%d cyc=%d" % (i, b.cycle))
+                        return
+                    yield
+                if o["gap"] == 0:
+                    res.bin("gap_0")
+                for _ in range(o["gap"]):
+                    yield
+                st["strobed"] = i
+                b.set(sig_of[o["kind"]], 1)
+                if o["kind"] == "write":
+                    b.set(dut.data_i, o["data"])
+                if o["kind"] == "read":
+                    b.set(dut.ack_i, o["ack"])
+                yield                                   # edge A: strobe sampled (with busy low if nothing is wrong)
+                b.set(sig_of[o["kind"]], 0)
+                if o["scramble"]:
+                    b.set(dut.data_i, rng.getrandbits(8) if rng.random() < 0.5 else (o.get("data", 0) ^ 0xFF))
+                    b.set(dut.ack_i, rng.randint(0, 1) if o["kind"] != "read" else 1 - o["ack"])
+                    res.bin("data_scrambled_after_strobe")
+                if st["op"] is not None and st["op"]["i"] == i:
+                    break
+                # busy was high again at the strobe edge although it had been seen low: not an acceptance; try again
+                attempts += 1
+                if attempts > 3:
+                    res.violation("busy_toggles_without_operation", "op#%d %s cyc=%d" % (i, o["kind"], b.cycle))
                     return
                 yield
-            if o["gap"] == 0:
-                res.bin("gap_0")
-            for _ in range(o["gap"]):
-                yield
-            st["strobed"] = i
-            b.set(sig_of[o["kind"]], 1)
-            if o["kind"] == "write":
-                b.set(dut.data_i, o["data"])
-            if o["kind"] == "read":
-                b.set(dut.ack_i, o["ack"])
-            yield                                   # edge A: strobe sampled with busy low
-            b.set(sig_of[o["kind"]], 0)
-            if o["scramble"]:
-                b.set(dut.data_i, rng.getrandbits(8) if rng.random() < 0.5 else (o.get("data", 0) ^ 0xFF))
-                b.set(dut.ack_i, rng.randint(0, 1) if o["kind"] != "read" else 1 - o["ack"])
-                res.bin("data_scrambled_after_strobe")
-            if st["op"] is None or st["op"]["i"] != i:
-                res.violation("strobe_not_accepted_while_busy_low", "op#%d %s cyc=%d" % (i, o["kind"], b.cycle))
-                return
             if o["spurious"]:
                 # strobes in the two cycles after acceptance: every operation lasts longer than that
                 st["spur_live"] = True
